@@ -29,35 +29,42 @@ Check C06_quoted_valid_complete : forall s v,
   StringChars s v -> Forall scalar v -> sl_quoted_body_valid s = true.
 Print Assumptions C06_quoted_valid_complete.
 
-(* The full statement over what the lexer itself accepts
-     forall body, sl_quoted_body_lexer_ok body = true -> exists v, su_unescape_string body = SuOk v /\ StringChars body v
-   is false: the lexer accepts a raw line terminator as first character, which is no StringCharacter. *)
-Theorem C06_quoted_lexer_refuted :
-  exists body, sl_quoted_body_lexer_ok body = true /\ (forall v, ~ StringChars body v).
-Proof.
-  exists [10]. split; [reflexivity|]. intros v H. inversion H; subst; congruence.
-Qed.
-Check C06_quoted_lexer_refuted :
-  exists body, sl_quoted_body_lexer_ok body = true /\ (forall v, ~ StringChars body v).
-Print Assumptions C06_quoted_lexer_refuted.
-
-(* outside that class (known finding quoted_leading_line_terminator) the statement holds *)
+(* Over what the lexer itself accepts (since the repair 4dbec7a this is the grammar's own rule) *)
 Theorem C06_quoted_lexer : forall body,
-  sl_quoted_body_lexer_ok body = true -> sl_leading_line_terminator body = false ->
+  sl_quoted_body_lexer_ok body = true ->
   exists v, su_unescape_string body = SuOk v /\ StringChars body v.
-Proof. intros body H Hl. apply quoted_decodes. now apply lexer_ok_not_leading. Qed.
+Proof. exact quoted_lexer_decodes. Qed.
 Check C06_quoted_lexer : forall body,
-  sl_quoted_body_lexer_ok body = true -> sl_leading_line_terminator body = false ->
+  sl_quoted_body_lexer_ok body = true ->
   exists v, su_unescape_string body = SuOk v /\ StringChars body v.
 Print Assumptions C06_quoted_lexer.
 
-(* and inside it the conversion still does not panic *)
 Theorem C06_quoted_no_panic : forall body,
   sl_quoted_body_lexer_ok body = true -> exists v, su_unescape_string body = SuOk v.
 Proof. exact quoted_no_panic. Qed.
 Check C06_quoted_no_panic : forall body,
   sl_quoted_body_lexer_ok body = true -> exists v, su_unescape_string body = SuOk v.
 Print Assumptions C06_quoted_no_panic.
+
+(* Before the repair the lexer accepted a raw line terminator as first character, which is no
+   StringCharacter: the statement was false of the old acceptance rule (fixed finding, kept as a witness). *)
+Theorem C06_quoted_lexer_old_refuted :
+  exists body, sl_quoted_body_lexer_ok_old body = true /\ (forall v, ~ StringChars body v).
+Proof.
+  exists [10]. split; [reflexivity|]. intros v H. inversion H; subst; congruence.
+Qed.
+Check C06_quoted_lexer_old_refuted :
+  exists body, sl_quoted_body_lexer_ok_old body = true /\ (forall v, ~ StringChars body v).
+Print Assumptions C06_quoted_lexer_old_refuted.
+
+Theorem C06_quoted_lexer_old_restricted : forall body,
+  sl_quoted_body_lexer_ok_old body = true -> sl_leading_line_terminator body = false ->
+  exists v, su_unescape_string body = SuOk v /\ StringChars body v.
+Proof. intros body H Hl. apply quoted_decodes. now apply lexer_ok_old_not_leading. Qed.
+Check C06_quoted_lexer_old_restricted : forall body,
+  sl_quoted_body_lexer_ok_old body = true -> sl_leading_line_terminator body = false ->
+  exists v, su_unescape_string body = SuOk v /\ StringChars body v.
+Print Assumptions C06_quoted_lexer_old_restricted.
 
 (* ---- block strings *)
 
@@ -142,10 +149,10 @@ Proof.
   vm_compute. reflexivity.
 Qed.
 
-(* the lexer-only class is inhabited and still converts *)
+(* the repaired lexer rejects the former quirk *)
 Example C06_nonvacuous_quirk :
-  sl_lexer_accepts_literal [34; 10; 97; 34] = true /\ sl_classify_literal [34; 10; 97; 34] = SlInvalid /\
-  sl_leading_line_terminator [10; 97] = true /\ su_string_of_token [34; 10; 97; 34] = SuOk [10; 97].
+  sl_lexer_accepts_literal [34; 10; 97; 34] = false /\ sl_classify_literal [34; 10; 97; 34] = SlInvalid /\
+  sl_leading_line_terminator [10; 97] = true /\ sl_quoted_body_lexer_ok_old [10; 97] = true.
 Proof. vm_compute. auto. Qed.
 
 (* a derivation with scalar values, for C06_quoted_valid_complete *)
